@@ -1,5 +1,5 @@
 From Coq Require Import Extraction ExtrOcamlBasic.
-From OV Require Import Common.Base C05.Model C05.Disp C05.Sess.
+From OV Require Import Common.Base C05.Model C05.Disp C05.Sess C05.Adm.
 Extraction Language OCaml.
 Extraction "C05_model.ml" init init_id step outs obs default_cfg classify rfc1661 conformsb counter_after ids_okb
-  trace alternates both_acked is_bad_cell waiting count_acts N.of_nat parse_opts confreq_content hlog serialize restore kill raw_timeout fire_still_valid handle_frame admin sys_init sess_step sess_init.
+  trace alternates both_acked is_bad_cell waiting count_acts N.of_nat parse_opts confreq_content hlog serialize restore kill raw_timeout fire_still_valid handle_frame admin sys_init sess_step sess_init adm_item adm0.
